@@ -913,15 +913,20 @@ func parseStatus(statusStatement parse.Node) schema.Status {
 
 func (c *Compiler) getStatus(node parse.Node, inheritedStatus schema.Status) schema.Status {
 
-	if statusStatement := node.ChildByType(parse.NodeStatus); statusStatement != nil {
+	// A node copied out of a grouping or added by an augment also carries
+	// the status statement of the uses / augment: the weakest one counts.
+	weakest := inheritedStatus
+	for _, statusStatement := range node.ChildrenByType(parse.NodeStatus) {
 		status := parseStatus(statusStatement)
 		if status < inheritedStatus {
 			c.error(statusStatement, fmt.Errorf("Cannot override status of parent"))
 		}
-		return status
+		if status > weakest {
+			weakest = status
+		}
 	}
 
-	return inheritedStatus
+	return weakest
 }
 
 func (c *Compiler) getConfig(node parse.Node, inheritedConfig bool) bool {
